@@ -165,6 +165,24 @@ func (c *Ctx) State(canon string) bool {
 	return !seen
 }
 
+// StateHash is State for callers that already hold a 64-bit state key.
+func (c *Ctx) StateHash(h uint64) bool {
+	c.mu.Lock()
+	_, seen := c.states[h]
+	if !seen {
+		c.states[h] = struct{}{}
+	}
+	c.mu.Unlock()
+	return !seen
+}
+
+// DistinctHash is Distinct for callers that already hold a 64-bit key.
+func (c *Ctx) DistinctHash(h uint64) {
+	c.mu.Lock()
+	c.distinct[h] = struct{}{}
+	c.mu.Unlock()
+}
+
 // Sample keeps up to 12 written-out cases per shard.
 func (c *Ctx) Sample(v any) {
 	c.mu.Lock()
